@@ -186,14 +186,23 @@ Auto == {hHost, hUserAgent, hAccept, hAcceptEncoding, hConnection, hContentLengt
 Norm(headers) == [i \in 1..Len(headers) |-> [n |-> Lower(headers[i].n), v |-> Trim(headers[i].v)]]
 Own(headers) == SelectSeq(Norm(headers), LAMBDA h : h.n \notin Auto)
 HasCT(headers) == \E i \in 1..Len(headers) : Lower(headers[i].n) = hContentType
-(* curl's default Content-Type is a header curl adds on its own: ignored when the original request has none *)
-SameHeaders(a, b) == LET dropCT(hs) == SelectSeq(hs, LAMBDA h : h.n # hContentType)
-                     IN  IF HasCT(a) = HasCT(b) THEN BagEq(Own(a), Own(b)) ELSE BagEq(dropCT(Own(a)), dropCT(Own(b))) /\ ~HasCT(b)
-Diff(a, b) == <<a.method = b.method, a.target = b.target, a.body = b.body, SameHeaders(a.headers, b.headers)>>
-SameReq(a, b) == Diff(a, b) = <<TRUE, TRUE, TRUE, TRUE>>
+(* curl's default Content-Type is a header curl adds on its own: ignored when the original request has none.  With output  *)
+(* sanitisation on (`redact`), a header printed with the value [Filtered] stands for any value of that header.              *)
+sFiltered == <<91, 70, 105, 108, 116, 101, 114, 101, 100, 93>>          \* [Filtered]
+SameHeaders(a, b, redact) ==
+    LET oa == Own(a)
+        ob == Own(b)
+        red == IF redact THEN {oa[i].n : i \in {j \in 1..Len(oa) : oa[j].v = sFiltered}} ELSE {}
+        keep(hs) == SelectSeq(hs, LAMBDA h : h.n \notin red)
+        namesOf(hs) == LET r == SelectSeq(hs, LAMBDA h : h.n \in red) IN [i \in 1..Len(r) |-> r[i].n]
+        dropCT(hs) == SelectSeq(hs, LAMBDA h : h.n # hContentType)
+    IN  /\ BagEq(namesOf(oa), namesOf(ob))
+        /\ IF HasCT(a) = HasCT(b) THEN BagEq(keep(oa), keep(ob)) ELSE BagEq(dropCT(keep(oa)), dropCT(keep(ob))) /\ ~HasCT(b)
+Diff(a, b, redact) == <<a.method = b.method, a.target = b.target, a.body = b.body, SameHeaders(a.headers, b.headers, redact)>>
+SameReq(a, b) == Diff(a, b, FALSE) = <<TRUE, TRUE, TRUE, TRUE>>
 (* verdict for a command line against the original request *)
 AsRequest(rq) == [method |-> rq.method, target |-> rq.target, headers |-> rq.wire, body |-> rq.body]
-CmdVerdict(cmd, orig) ==
+CmdVerdict(cmd, orig, redact) ==
     LET tk == Tokens(cmd)
         rq == Interp(tk.words)
     IN  IF ~tk.ok THEN [v |-> "F", why |-> "shell-unterminated-quote"]
@@ -201,7 +210,7 @@ CmdVerdict(cmd, orig) ==
         ELSE IF tk.glob THEN [v |-> "U", why |-> "shell-expansion-unquoted"]
         ELSE IF ~rq.ok THEN [v |-> "F", why |-> "curl-usage"]
         ELSE IF rq.unknown THEN [v |-> "U", why |-> "curl-outside-model"]
-        ELSE LET d == Diff(AsRequest(rq), orig)
+        ELSE LET d == Diff(AsRequest(rq), orig, redact)
              IN  IF d = <<TRUE, TRUE, TRUE, TRUE>> THEN [v |-> "T", why |-> ""]
                  ELSE [v |-> "F", why |-> IF ~d[1] THEN "method" ELSE IF ~d[2] THEN "url"
                                            ELSE IF ~d[3] THEN (IF rq.readsFile THEN "body-read-from-file" ELSE "body")
@@ -212,11 +221,11 @@ CmdVerdict(cmd, orig) ==
 Alphabet == {97, cSQ, cDQ, cBS, cDOLLAR, cBT, cSP, cNL, cAT, cSEMI, cCOLON, cAMP, cPCT}
 Strs(n) == UNION {[1..k -> Alphabet] : k \in 0..n}
 BaseSlots == {"header", "query", "path", "body"}                \* the design invariants below speak about these
-Slots == BaseSlots \cup {"cookie", "json", "form"}              \* cookie value, JSON string body, urlencoded form field
+Slots == BaseSlots \cup {"cookie", "json", "form", "auth"}      \* cookie value, JSON string body, urlencoded form field, Authorization value
 Elements(n, m) == {[slot |-> sl, s |-> s] : sl \in Slots, s \in Strs(n)}
                     \cup {[slot |-> sl, s |-> s] : sl \in {"header", "body"}, s \in [1..m -> Alphabet]}
 (* field values: no CR / LF, no leading or trailing blanks (RFC 7230 3.2); path values are non-empty *)
-InFragment(e) == CASE e.slot \in {"header", "cookie"} -> /\ \A i \in 1..Len(e.s) : e.s[i] # cNL
+InFragment(e) == CASE e.slot \in {"header", "cookie", "auth"} -> /\ \A i \in 1..Len(e.s) : e.s[i] # cNL
                                            /\ (e.s = <<>> \/ (~IsSpace(e.s[1]) /\ ~IsSpace(e.s[Len(e.s)])))
                    [] e.slot = "path" -> e.s # <<>>
                    [] OTHER -> TRUE
@@ -254,9 +263,9 @@ Spec == Init /\ [][Next]_el
 (* design invariants *)
 TypeOK == el.slot \in Slots
 QuoteRoundTrip == LET t == Tokens(<<97, cSP>> \o ShQuote(el.s)) IN t.ok /\ ~t.op /\ ~t.glob /\ t.words = <<<<97>>, el.s>>
-RefFaithful == (el.slot \in BaseSlots /\ InFragment(el)) => CmdVerdict(RefCmd(el), ReqOf(el)).v = "T"
+RefFaithful == (el.slot \in BaseSlots /\ InFragment(el)) => CmdVerdict(RefCmd(el), ReqOf(el), FALSE).v = "T"
 NaivePitfalls == (el.slot \in BaseSlots /\ InFragment(el)) =>
-                    ((CmdVerdict(NaiveCmd(el), ReqOf(el)).v = "T")
+                    ((CmdVerdict(NaiveCmd(el), ReqOf(el), FALSE).v = "T")
                        <=> ~((el.slot = "header" /\ el.s = <<>>) \/ (el.slot = "body" /\ el.s # <<>> /\ Head(el.s) = cAT)))
 Export == PrintT(<<"CASE", ToJson([slot |-> el.slot, s |-> el.s, fragment |-> InFragment(el),
                                    ref |-> IF el.slot \in BaseSlots THEN RefCmd(el) ELSE <<>>])>>)
